@@ -520,11 +520,27 @@ impl<'a> Hist<'a> {
             self.has_created = true;
             return Ok(());
         }
+        if let Ev::MovedIn(p) | Ev::MovedOut(p) = ev {
+            // EventKind::Modify(ModifyKind::Name(To | From)) with the single path that is watched
+            let dir = if matches!(ev, Ev::MovedIn(_)) { "moved in" } else { "moved out" };
+            if self.watched(p) {
+                self.trace.push(format!("    remove_source({})   [{}] -> collect_work before the next pass", p, dir));
+                cov.hit("call:remove_source");
+                cov.hit("call:remove_source(rename)");
+                let full = self.world.full(p);
+                self.call("remove_source", |t| t.remove_source(&full))?;
+                self.has_created = true;
+            } else {
+                cov.hit("event:not_watched");
+            }
+            return Ok(());
+        }
         let (p, what) = match ev {
             Ev::Changed(p) => (p, "modified"),
             Ev::Removed(p) => (p, "removed"),
             Ev::Created(p) => (p, "created"),
             Ev::Renamed(_, to) => (to, "renamed"),
+            Ev::MovedIn(p) | Ev::MovedOut(p) => (p, "moved"),
         };
         if !self.watched(p) {
             self.trace.push(format!("    ({} {}: not watched, no notification)", what, p));
@@ -551,7 +567,7 @@ impl<'a> Hist<'a> {
                 self.call("source_changed", |t| t.source_changed(&full))?;
                 self.has_created = true;
             }
-            Ev::Renamed(..) => {}
+            Ev::Renamed(..) | Ev::MovedIn(_) | Ev::MovedOut(_) => {}
         }
         Ok(())
     }
@@ -691,7 +707,7 @@ impl<'a> Hist<'a> {
                 .events
                 .iter()
                 .filter_map(|e| match e {
-                    Ev::Created(p) => Some(p.clone()),
+                    Ev::Created(p) | Ev::MovedIn(p) => Some(p.clone()),
                     Ev::Renamed(_, to) => Some(to.clone()),
                     _ => None,
                 })
@@ -1201,7 +1217,8 @@ impl Monitor for C10 {
                         "process" => continue,
                         "edit" | "break" => format!("write{}", dep),
                         "save" => "rename-over".to_string(),
-                        "rm" | "rmdir" | "mv" => format!("remove{}", dep),
+                        "mvin" => "move-in".to_string(),
+                        "rm" | "rmdir" | "mv" | "mvout" => format!("remove{}", dep),
                         "add" | "restore" => "create".to_string(),
                         "touch" | "reformat" => "config-touch".to_string(),
                         other => format!("config-{}", other),
